@@ -309,6 +309,46 @@ pub fn worker(w: &mut Worker) {
         }
     }
 
+    // family 4: a <scope> function whose locals carry the names of the caller's variables - of the
+    // output variable above all - ending by reaching its end, by a bare return, by a value; the caller
+    // had no value in the output variable before (the corner the property leaves open is a
+    // pre-existing one)
+    {
+        let endings: Vec<Vec<Stmt>> = vec![vec![], vec![Stmt::Return(None)], vec![Stmt::Return(Some("r1".into()))], vec![Stmt::Return(Some("x".into()))]];
+        let seqs4: Vec<Vec<CallForm>> = vec![
+            vec![CallForm::Assign],
+            vec![CallForm::Assign, CallForm::Assign],
+            vec![CallForm::Stmt, CallForm::Assign],
+            vec![CallForm::Cond, CallForm::Assign],
+            vec![CallForm::AssignSpaced, CallForm::Stmt],
+        ];
+        for (ei, ending) in endings.iter().enumerate() {
+            for in_block in [false, true] {
+                let mut body = vec![Stmt::Set("x".into(), "local-x".into()), Stmt::Set("g".into(), "local-g".into()), Stmt::Set("fresh".into(), "local-fresh".into()), Stmt::Emit(1)];
+                if in_block {
+                    // the ending sits inside a taken branch
+                    let mut inner = vec![Stmt::Emit(2)];
+                    inner.extend(ending.iter().cloned());
+                    body.push(Stmt::If { conds: vec![Cond { site: 1, form: 2 }], bodies: vec![inner], else_body: None });
+                } else {
+                    body.extend(ending.iter().cloned());
+                }
+                for (si, seq) in seqs4.iter().enumerate() {
+                    let mut main = vec![Stmt::Set("g".into(), "G".into()), Stmt::Emit(100)];
+                    for (i, f) in seq.iter().enumerate() {
+                        main.push(call(*f, 0, 200 + i as u32));
+                        main.push(Stmt::Emit(101 + i as u32));
+                    }
+                    let prog = Program {
+                        funcs: vec![Func { scoped: true, body: body.clone() }],
+                        main,
+                    };
+                    run_prog(w, &rig, &prog, (si + ei) % 4, devs, horizon, hash64(&("locals", ei, in_block, si)));
+                }
+            }
+        }
+    }
+
     // family 2: two functions, f1 calls f0 (nested), f0 may call itself guarded by an answer (recursion)
     let inner_bodies: Vec<Vec<Stmt>> = {
         let mut v = vec![];
@@ -436,7 +476,7 @@ pub fn crash_sig(_case: &Value, kind: &str) -> String {
     kind.to_string()
 }
 
-pub const RULE: &str = "family 1: one function (plain and <scope>) whose body is every block forest with 0..B blocks (if/elseif/else, while, for-in) with nothing, `return r1` or a bare `return` planted at every position of the body (depth-first, inside every nesting), with and without a trailing `return r9`; main sets a global and a pre-existing output variable and calls the function in every sequence of 1..2 call forms and selected triples from {statement, `x = f p`, `x = f \"q r\" s`, condition position `if f p`}. family 2: two functions where the outer one calls the inner one (as assignment, statement, in condition position, from a for body) and the inner one returns from inside for / while-in-if or calls itself guarded by an answer (also from inside a for body), all scoped/plain combinations. family 3: 'find first' functions (a loop that returns from a later iteration) called two or three times in every form, explored with 4-5 deviations. Every answer sequence (truth values, array lengths) with bounded deviations; each execution compared with the tree-walking interpreter with call semantics (arguments as global variables 1..n, scoped save/restore, value-less end leaves the output variable undefined). Function-body emits show ${1} and a global ${g} so argument binding and scope isolation are observable. The two corners the property leaves open are masked. Scale family: plain and <scope> recursion of depth 10/70/300 (thorough: 1000, 3000), a function called from a loop 10..300 times, a function that returns from inside its own for/in loop called 2x10..300 times, a scoped function called from a plain one called from a loop; results and the variables that must stay undefined are compared with values computed in Rust";
+pub const RULE: &str = "family 1: one function (plain and <scope>) whose body is every block forest with 0..B blocks (if/elseif/else, while, for-in) with nothing, `return r1` or a bare `return` planted at every position of the body (depth-first, inside every nesting), with and without a trailing `return r9`; main sets a global and a pre-existing output variable and calls the function in every sequence of 1..2 call forms and selected triples from {statement, `x = f p`, `x = f \"q r\" s`, condition position `if f p`}. family 2: two functions where the outer one calls the inner one (as assignment, statement, in condition position, from a for body) and the inner one returns from inside for / while-in-if or calls itself guarded by an answer (also from inside a for body), all scoped/plain combinations. family 3: 'find first' functions (a loop that returns from a later iteration) called two or three times in every form, explored with 4-5 deviations. Every answer sequence (truth values, array lengths) with bounded deviations; each execution compared with the tree-walking interpreter with call semantics (arguments as global variables 1..n, scoped save/restore, value-less end leaves the output variable undefined). Function-body emits show ${1} and a global ${g} so argument binding and scope isolation are observable. The two corners the property leaves open are masked. family 4: a <scope> function whose locals are named like the caller's output variable, global and a fresh name, ending by reaching its end / bare return / value (also from inside a taken branch), called in five sequences of forms from a caller that had no value in the output variable. Scale family: plain and <scope> recursion of depth 10/70/300 (thorough: 1000, 3000), a function called from a loop 10..300 times, a function that returns from inside its own for/in loop called 2x10..300 times, a scoped function called from a plain one called from a loop; results and the variables that must stay undefined are compared with values computed in Rust";
 pub const ASSUMPTIONS: &[&str] = &["spelling of fn/return keywords rotates over their aliases and full names", "loop variables after their loop and handle names are masked in the final variables"];
 pub const EXHAUSTIVE: bool = true;
 pub const WALL_CAP_S: (u64, u64) = (55, 2700);
